@@ -181,3 +181,12 @@ pub fn run_query(q: &str, doc: &Value, am: &AddrMap) -> Result<Result<Vec<u32>, 
 pub fn run_only_path(q: &str, doc: &Value) -> Result<Result<Vec<String>, String>, String> {
     catch_unwind(AssertUnwindSafe(|| doc.query_only_path(q).map_err(|e| e.to_string()))).map_err(panic_text)
 }
+
+/// serde_json::from_str without the recursion limit (documents assembled in code can be deeper than 128 levels)
+pub fn json_unbounded(text: &str) -> Result<Value, serde_json::Error> {
+    let mut de = serde_json::Deserializer::from_str(text);
+    de.disable_recursion_limit();
+    let v: Value = serde::de::Deserialize::deserialize(&mut de)?;
+    de.end()?;
+    Ok(v)
+}
